@@ -1,18 +1,18 @@
 """Run every extractor once (used by setup.sh)."""
 import sys
 
+from translator import registry
+
 
 def main():
     ok = True
-    from translator import registry
-
-    for name, fn in registry.ALL:
+    for mod in registry.modules():
         try:
-            fn()
-            print("translated", name)
+            mod.generate()
+            print("translated", mod.NAME)
         except Exception as exc:  # pylint: disable=broad-except
             ok = False
-            print("translator failed for", name, ":", exc)
+            print("translator failed for", mod.NAME, ":", exc)
     return 0 if ok else 1
 
 
